@@ -310,8 +310,24 @@ func genLife(root *RNG, i int, seed uint64) LCase {
 		c.Min = 3
 	}
 	c.Init = genBlind(r)
-	if r.Chance(1, 12) {
+	if r.Chance(1, 7) {
 		c.Init = TBlind{Level: 0, Ante: -1, Dealer: -1, SB: -1, BB: -1} // blinds not set yet
+		if r.Chance(1, 2) {
+			// ... or only partly: each field alone can be the one still missing
+			c.Init = TBlind{Level: 1, Ante: 0, Dealer: 0, SB: 10, BB: 20}
+			switch r.Intn(5) {
+			case 0:
+				c.Init.Level = 0
+			case 1:
+				c.Init.Ante = -1
+			case 2:
+				c.Init.Dealer = -1
+			case 3:
+				c.Init.SB = -1
+			default:
+				c.Init.BB = -1
+			}
+		}
 	}
 	return c
 }
